@@ -604,6 +604,22 @@ theorem srcLoopP_toPyDict (S : Schema) (cs : KeyCase) (incl : Bool) (c : Nat) (s
   rw [srcLoopP_eq S cs incl _ cur hinj sl 0 [] hok (by simp), toPyDict_msg]
   cases toPyDictKVs S cs incl (fieldsOf S c) cur 0 sl <;> simp [Except.bind, bind]
 
+/-- the guards of the tie hold, slot by slot, of every typed message (`slotsOk'`, the judgement of C04's
+    `wellTyped'`) whose dict slots have pairwise distinct keys, in a schema whose fields pass `fieldJsonOk`,
+    without `include_default_values` -/
+theorem slotsTieOkP_of_typed (S : Schema) (cs : KeyCase) (hS : SchemaJsonOk S) (fs : List FieldD) (cur : List (Option Nat)) :
+    ∀ (vs : List Val) (idx : Nat), slotsOk' S fs cur idx vs = true → (∀ v ∈ vs, keysDistinct v = true) →
+      SlotsTieOkP S cs false fs cur idx vs
+  | [], _, _, _ => trivial
+  | v :: vs, idx, h, hk => by
+    rw [slotsOk'] at h
+    simp only [Bool.and_eq_true] at h
+    refine ⟨fun f hf => ⟨fun _ => ?_, fun _ => defaultOkP_of_schema S cs f hS⟩,
+      slotsTieOkP_of_typed S cs hS fs cur vs (idx + 1) h.2 (fun x hx => hk x (by simp [hx]))⟩
+    have h1 := h.1
+    rw [hf] at h1
+    exact dynOkJ_of_slotOk' S f _ _ v h1 (hk v (by simp))
+
 /-! ### to_json / from_json -/
 
 /-- **the body of `Message.to_json` as written is the model's `toJson`**: `json.dumps` of
